@@ -111,6 +111,12 @@ class Job:
             sym.update(ob.thorough_sym)
         for k in shard:
             sym.pop(k, None)
+        # a shard key 'L' gives the length of the symbolic bytes parameter ob.bytes_param
+        self.call_shard = dict(shard)
+        bp = getattr(ob, 'bytes_param', None)
+        if bp and 'L' in shard:
+            sym[bp] = By(shard['L'])
+            self.call_shard.pop('L')
         self.sym = sym
         self.timeout = (ob.thorough_timeout if tier == 'thorough' and
                         ob.thorough_timeout else ob.timeout)
@@ -153,7 +159,7 @@ def _gen_wrapper(prop, job):
     for extra in ob.pre:
         names = {n.id for n in ast.walk(ast.parse(extra)) if isinstance(n, ast.Name)}
         conc = dict(ob.fixed)
-        conc.update(job.shard)
+        conc.update(job.call_shard)
         if names & set(conc):
             # substitute concrete shard values
             tree = ast.parse(extra, mode='eval')
@@ -167,7 +173,7 @@ def _gen_wrapper(prop, job):
         pres.append(extra)
     call_kw = ['%s=%s' % (p, p) for p in params]
     conc = dict(ob.fixed)
-    conc.update(job.shard)
+    conc.update(job.call_shard)
     call_kw += ['%s=%r' % kv for kv in sorted(conc.items())]
     call = '_h(%s)' % ', '.join(call_kw)
     doc = ''.join('    pre: %s\n' % p for p in pres)
@@ -276,37 +282,14 @@ def run_crosshair(prop, job):
     env.pop('VF_REPLAY', None)
     params = sorted(job.sym)
     T = job.timeout
-    # twin first (short): must be violated
-    tcap = max(20, min(60, T))
-    cmd = [PY, '-m', 'crosshair', 'check', '--report_all',
-           '--unblock', 'open:' + stats,
-           '--per_condition_timeout', str(tcap),
-           '%s:%d' % (path, twin_line + 2)]
-    rc, out, err, killed, wall = _run(cmd, tcap + 60, env)
-    twin_kw = None
-    for line in out.splitlines():
-        m = _MSG.match(line)
-        if m and m.group('kind') == 'error':
-            twin_kw = _parse_call(m.group('msg'), params)
-            if twin_kw is None and 'when calling' in m.group('msg'):
-                twin_kw = {}
-            # a crashing twin (exception) is not a reachability witness
-            if not m.group('msg').startswith('false when'):
-                job.extra['twin_msg'] = m.group('msg')[:300]
-    job.wall += wall
-    if twin_kw is None:
-        job.status = 'inconclusive'
-        job.reason = 'reachability twin not violated (vacuous or unreachable): ' + (out.strip()[-300:] or err.strip()[-300:])
-        return job
-    job.twin = twin_kw
-    if os.path.exists(stats):
-        os.unlink(stats)
+    # one CrossHair process checks both `main` (the obligation) and `twin`
+    # (reachability witness: must be violated)
     cmd = [PY, '-m', 'crosshair', 'check', '--report_all',
            '--unblock', 'open:' + stats,
            '--per_condition_timeout', str(T),
            '--per_path_timeout', str(max(10, T // 4)),
-           '%s:%d' % (path, main_line + 2)]
-    rc, out, err, killed, wall = _run(cmd, T * 1.5 + 60, env)
+           path]
+    rc, out, err, killed, wall = _run(cmd, T * 2.5 + 90, env)
     job.wall += wall
     try:
         with open(stats) as f:
@@ -314,7 +297,28 @@ def run_crosshair(prop, job):
         job.paths, job.completed = st['started'], st['completed']
     except Exception:
         pass
+    twin_kw = None
+    main_lines = []
+    for line in out.splitlines():
+        m = _MSG.match(line)
+        if not m:
+            continue
+        if int(m.group('line')) >= twin_line:
+            if m.group('kind') == 'error':
+                kw = _parse_call(m.group('msg'), params)
+                if kw is None and 'when calling' in m.group('msg'):
+                    kw = {}
+                if m.group('msg').startswith('false when'):
+                    twin_kw = kw
+                else:
+                    job.extra['twin_msg'] = m.group('msg')[:300]
+                    if twin_kw is None:
+                        twin_kw = kw
+        else:
+            main_lines.append(line)
+    out = '\n'.join(main_lines)
     job.extra['crosshair_cmd'] = ' '.join(cmd[1:])
+    job.twin = twin_kw
     if killed:
         job.status = 'inconclusive'
         job.reason = 'killed at wall cap'
@@ -339,7 +343,11 @@ def run_crosshair(prop, job):
         job.status = 'inconclusive'
         job.reason = 'no verdict (rc=%s): %s' % (rc, (out + err).strip()[-400:])
     elif verdict[0] == 'confirmed':
-        job.status = 'confirmed'
+        if twin_kw is None:
+            job.status = 'inconclusive'
+            job.reason = 'reachability twin not violated (vacuous or unreachable)'
+        else:
+            job.status = 'confirmed'
     elif verdict[0] == 'unknown':
         job.status = 'inconclusive'
         job.reason = verdict[1]
@@ -381,7 +389,7 @@ print('REPRODUCED: harness %(fn)s(**%%r) returned False' %% (KW,)); sys.exit(1)
 def write_replay(prop, job, kw):
     os.makedirs(REPLAYS, exist_ok=True)
     full = dict(job.ob.fixed)
-    full.update(job.shard)
+    full.update(job.call_shard)
     full.update(kw)
     h = hashlib.sha1(repr(sorted(full.items())).encode()).hexdigest()[:8]
     path = os.path.join(REPLAYS, '%s_%s_%s.py' % (prop, job.slug[:60], h))
